@@ -1143,6 +1143,14 @@ def gen_package(seed: int, cfg: Optional[GenConfig] = None, targets=("cpp", "pyt
     for t in targets:
         out[t] = {TARGET_KEYS[t]: "../out/" + t}
     pkg.targets = out
+    # documentation comments on some definitions (they travel into the generated code as comments, and the tool strips them
+    # from the schema text it embeds - which is a pass over the model of its own)
+    cr = rng.fork("comments")
+    if cr.chance(0.5):
+        for q in pkg.all_packages():
+            for d in q.defs():
+                if not d.comment and cr.fork(q.namespace, d.name).chance(0.3):
+                    d.comment = cr.fork("text", d.name).choice(["as delivered by the instrument", "see the acquisition notes", "units: SI", "do not reorder", "kept for older readers"])
     return pkg
 
 
